@@ -426,15 +426,114 @@ func checkSeparatorFlagCleared(p *Prog, r *Result, rule string) int {
 		}
 		return false
 	}
-	n := 0
+	// printer methods every path of which stores false
+	clears := map[*types.Func]bool{}
+	for _, cfd := range p.AllFuncDecls("syntax") {
+		if cfd.Body == nil || recvTypeName(cfd) != "Printer" || cfd == fd {
+			continue
+		}
+		_ = cfd
+	}
+	for changed := true; changed; {
+		changed = false
+		for _, cfd := range p.AllFuncDecls("syntax") {
+			if cfd.Body == nil || recvTypeName(cfd) != "Printer" || cfd == fd {
+				continue
+			}
+			fo, isFn := info.Defs[cfd.Name].(*types.Func)
+			if !isFn || clears[fo] {
+				continue
+			}
+			cg := NewFGraph(info, cfd.Body, nil)
+			if ok, _ := cg.MustPass(cg.Entry, -1, cg.Exit, func(m ast.Node) bool {
+				if store(m, "false") {
+					return true
+				}
+				for _, c := range nodeCalls(m) {
+					if callee := calleeOf(info, c); callee != nil && clears[callee] {
+						return true
+					}
+				}
+				return false
+			}, nil); ok {
+				clears[fo] = true
+				changed = true
+			}
+		}
+	}
+	n, nStore := 0, 0
+	// the statements inside a construct leave the flag as their last separator left it (`foo &` sets it); the
+	// construct's closing word or parenthesis consumes it. So after every nested statement list, every path to the
+	// printing function's return passes a store of false or a method that makes one.
+	nested := lookupFunc(pkg, "Printer.nestedStmts")
+	for _, cfd := range p.AllFuncDecls("syntax") {
+		if cfd.Body == nil || recvTypeName(cfd) != "Printer" || nested == nil {
+			continue
+		}
+		var cg *FGraph
+		k := 0
+		inspectNoLit(cfd.Body, func(m ast.Node) bool {
+			c, ok := m.(*ast.CallExpr)
+			if !ok || calleeOf(info, c) != nested {
+				return true
+			}
+			if cg == nil {
+				cg = NewFGraph(info, cfd.Body, nil)
+			}
+			k++
+			n++
+			key := fmt.Sprintf("%s#nested statement list %d is closed by something that clears the separator flag", funcKey("syntax", cfd), k)
+			blk, idx := cg.BlockOf(c)
+			if blk == nil {
+				if b2 := blockContaining(cg, c); b2 != nil {
+					blk = b2
+					for i, nd := range b2.Nodes {
+						if nd.Pos() <= c.Pos() && c.End() <= nd.End() {
+							idx = i
+						}
+					}
+				}
+			}
+			if blk == nil {
+				r.Undecided(rule, key, c.Pos(), "the call was not found in the flow graph")
+				return true
+			}
+			ok2, _ := cg.MustPass(blk, idx, cg.Exit, func(q ast.Node) bool {
+				if store(q, "false") {
+					return true
+				}
+				for _, cc := range nodeCalls(q) {
+					if callee := calleeOf(info, cc); callee != nil && clears[callee] {
+						return true
+					}
+				}
+				return false
+			}, nil)
+			r.Check(ok2, rule, key, c.Pos(), "every path from the list to the function's return writes the closing token through a method that clears the flag",
+				"after this nested statement list the function can return with wroteSemi as the last inner statement left it: `foo &` inside sets it, and the statement list outside then writes no separator — with SingleLine `(foo &)` followed by `bar` prints as `(foo &) bar`, and `echo $(foo &)` followed by `bar` becomes one command")
+			return true
+		})
+	}
 	for _, b := range g.Blocks {
 		for i, nd := range b.Nodes {
 			if !store(nd, "true") {
 				continue
 			}
 			n++
-			key := fmt.Sprintf("%s#store %d of wroteSemi = true is undone before the command ends", funcKey("syntax", fd), n)
-			ok, _ := g.MustPass(b, i, g.Exit, func(m ast.Node) bool { return store(m, "false") }, nil)
+			nStore++
+			key := fmt.Sprintf("%s#store %d of wroteSemi = true is undone before the command ends", funcKey("syntax", fd), nStore)
+			ok, _ := g.MustPass(b, i, g.Exit, func(m ast.Node) bool {
+				if store(m, "false") {
+					return true
+				}
+				// or a printer method that clears it on every path (the one that writes the closing word)
+				for _, c := range nodeCalls(m) {
+					if callee := calleeOf(info, c); callee != nil && clears[callee] {
+						return true
+					}
+				}
+				return false
+			}, nil)
 			r.Check(ok, rule, key, nd.Pos(), "every path from the store to the function's return stores false",
 				"Printer.command sets wroteSemi — to keep a `;` from being written before the construct's own closing word — and can return with it still set: the statement list then takes it for the separator of the statement that follows on the same line and writes none, as in `case x in a) foo ;; esac bar` under SingleLine, which does not parse")
 		}
